@@ -29,3 +29,11 @@ Proof. exact IInv_remove. Qed.
 Theorem C03_index_creation_backfills :
   forall t ppr d t', XInv t -> add_global_index t ppr d = Some t' -> XInv t'.
 Proof. exact XInv_add_global_index. Qed.
+
+(* the per-index item count (ix_count, what DescribeTable reports for the index) is the number of stored items that have
+   the index's key attributes; with IInv for every reachable state this is the last clause of the property *)
+From Minidyn Require Import Proofs.IndexWalk.
+
+Theorem C03_index_count_is_number_of_indexed_items :
+  forall defs data ix, wf data -> IInv defs data ix -> ix_count ix = List.length (filter (indexed (ix_ks ix) defs) data).
+Proof. exact index_count_is_indexed_items. Qed.
